@@ -158,7 +158,7 @@ inductive Outcome where
   | crashed (e : Err) (pop : Pop)
   /-- the `while True` loop did not stop within the fuel -/
   | outOfFuel (pop : Pop)
-  deriving Repr
+  deriving DecidableEq, Repr
 
 def Outcome.pop : Outcome → Pop
   | .ok p => p
